@@ -48,7 +48,7 @@ type CallSpec struct {
 	Deadline bool  // the context ends by deadline (context.DeadlineExceeded) instead of cancellation
 	After    int   // start only after call #After has returned (-1: none)
 	Pkt      int   // request variant
-	Dest     int   // 0 default server address, 1 explicit unicast
+	Dest     int   // 0 default server address, 1 explicit unicast, 2 link-local with a zone
 }
 
 type DgSpec struct {
@@ -95,6 +95,8 @@ var serverAddr = &net.UDPAddr{IP: net.IPv4(10, 0, 0, 1), Port: 67}
 var otherDest = &net.UDPAddr{IP: net.IPv4(10, 9, 9, 9), Port: 6767}
 var serverAddr6 = &net.UDPAddr{IP: net.ParseIP("fe80::1"), Port: 547}
 var otherDest6 = &net.UDPAddr{IP: net.ParseIP("2001:db8::99"), Port: 5547}
+var zonedDest6 = &net.UDPAddr{IP: net.ParseIP("fe80::99"), Port: 547, Zone: "eth7"}
+var zonedDest4 = &net.UDPAddr{IP: net.IPv4(169, 254, 0, 9), Port: 67, Zone: "eth7"}
 
 func xid4(id int) dhcpv4.TransactionID { return dhcpv4.TransactionID{0xa0 + byte(id), 0x11, 0x22, 0x33} }
 func xid6(id int) dhcpv6.TransactionID { return dhcpv6.TransactionID{0xb0 + byte(id), 0x44, 0x55} }
@@ -231,6 +233,8 @@ func (s *ClientScenario) body(out **clientRun) func() {
 				dest := serverAddr
 				if c.Dest == 1 {
 					dest = otherDest
+				} else if c.Dest == 2 {
+					dest = zonedDest4
 				}
 				run.dests[idx] = dest.String()
 				var m nclient4.Matcher
@@ -270,6 +274,8 @@ func (s *ClientScenario) body(out **clientRun) func() {
 				dest := serverAddr6
 				if c.Dest == 1 {
 					dest = otherDest6
+				} else if c.Dest == 2 {
+					dest = zonedDest6
 				}
 				run.dests[idx] = dest.String()
 				var m nclient6.Matcher
